@@ -209,7 +209,11 @@ func (r *Reader) Read(p []byte) (int, error) {
 	}
 	if r.concReader.ready() {
 		n, err := r.concReader.Read(p)
-		r.err = err
+		if err != io.EOF {
+			// As in the non-concurrent case, io.EOF is not a sticky error: a
+			// Seek call can move the position back before the end.
+			r.err = err
+		}
 		return n, err
 	}
 
